@@ -11,5 +11,8 @@ def run(rep, tier, seed):
     lines = domhist.gen(seed + 4, tier, opts={"ops": ops, "maxvars": 4}, n=(1200 if tier == "quick" else 30000))
     vlib.run_stream(rep, "itv-lattice", "itvdom", "itvdom", lines, oracle=domhist.oracle,
                     nontrivial=domhist.nontrivial, key=lambda l: "history")
+    # flat_boolean_numerical_domain<interval_domain>: mirrored (Dom/FlatBool.v), proved, exact correspondence
+    import C03_flatbool
+    C03_flatbool.streams(rep, tier, seed)
     import domall
     domall.search(rep, tier, seed, "C04")
